@@ -342,6 +342,21 @@ func runMod(text string) (mf *transformer.ModFile, err error, pn any) {
 	return
 }
 
+var aloneCache = map[string]bool{}
+
+// entryRejectedAlone tells whether the single-entry manifest of e is rejected.
+func entryRejectedAlone(e string) bool {
+	if v, ok := aloneCache[e]; ok {
+		return v
+	}
+	_, err, pn := runMod(simpleManifest([]string{e}).Text)
+	v := err != nil || pn != nil
+	if len(aloneCache) < 1<<20 {
+		aloneCache[e] = v
+	}
+	return v
+}
+
 // c15Judge applies the oracle to one manifest.
 func c15Judge(ctx *core.Ctx, name string, m *manifest, positions bool) bool {
 	ctx.Trans(1)
@@ -391,6 +406,17 @@ func c15Judge(ctx *core.Ctx, name string, m *manifest, positions bool) bool {
 				return viol("duplicate-error", fmt.Sprintf("two errors for the same entry at %v", p), "one error per offending entry", err.Error())
 			}
 			seen[p] = true
+		}
+		if positions && len(m.Entries) > 1 {
+			// every entry is judged on its own: an entry gets an error in this manifest exactly if the manifest made of
+			// this entry alone is rejected ("one error per offending entry" - an entry that is fine alone does not offend)
+			for i, e := range m.Entries {
+				has := seen[m.Items[i]] || (i < len(m.ItemsAlt) && m.ItemsAlt[i] != nil && seen[*m.ItemsAlt[i]])
+				if alone := entryRejectedAlone(e); alone != has {
+					return viol("entry-verdict-depends-on-neighbours", fmt.Sprintf("entry %d (%q): rejected alone=%v, but error in this manifest=%v", i, e, alone, has), fmt.Sprint(alone), fmt.Sprint(has))
+				}
+			}
+			ctx.Flag("c15:entries-judged-independently")
 		}
 		if positions {
 			for _, i := range unsafe {
@@ -552,7 +578,7 @@ func init() {
 		ID: "C15",
 		Rule: "every path string of length <= 5 (quick) / <= 6 (thorough, plus length 7 with one of . % \\ in the middle) over the alphabet { . / \\ % 2 5 e E f F c C + a g }, bare and with .fga / %2Efga / %2efga appended, " +
 			"as single entry and (length <= 3) as second and third entry behind good ones, in a single-quoted block-sequence manifest; 16 entry sets x 15 YAML presentations (block/flow, plain/single/double/folded/literal scalars, key order, indentation, comments, CRLF, document start, anchors); " +
-			"25 malformed manifests (missing/wrong-typed/duplicated keys, non-string entries). Oracle: own percent decoder and segment analysis; positions from the generator's offsets. " +
+			"25 malformed manifests (missing/wrong-typed/duplicated keys, non-string entries). Oracle: own percent decoder and segment analysis; positions from the generator's offsets; in multi-entry manifests an entry has an error exactly if it is rejected alone. " +
 			"states = outcome classes, non-trivial = distinct path strings",
 		Assume: []string{
 			"over-rejection of a path that is safe by the reference (e.g. 'a/b../c.fga') is allowed by the statement and only counted",
@@ -562,7 +588,7 @@ func init() {
 		Technique: "bounded exhaustive enumeration of path strings and YAML presentations against a reference decoder / segment analysis with a source-position oracle",
 		Run:       c15Run,
 		Finish: func(r *core.Result) error {
-			for _, f := range []string{"c15:accepted", "c15:rejected", "c15:encoded-entry-accepted", "c15:positions-checked", "c15:malformed", "c15:presentation:anchors", "c15:presentation:folded", "c15:presentation:crlf", "c15:presentation:block-plain"} {
+			for _, f := range []string{"c15:accepted", "c15:rejected", "c15:encoded-entry-accepted", "c15:positions-checked", "c15:malformed", "c15:entries-judged-independently", "c15:presentation:anchors", "c15:presentation:folded", "c15:presentation:crlf", "c15:presentation:block-plain"} {
 				if !r.Flags[f] {
 					return fmt.Errorf("C15: guard %q never exercised", f)
 				}
